@@ -219,7 +219,7 @@ pub fn mutations(g: &mut Gen, bs: &[u8], thorough: bool) -> Vec<Vec<u8>> {
     let n = bs.len();
     out.push(bs.to_vec());
     // truncations
-    let max_trunc = if thorough { 64 } else { 12 };
+    let max_trunc = if n > 2048 { 4 } else if thorough { 64 } else { 12 };
     if n <= max_trunc {
         for k in 0..n {
             out.push(bs[..k].to_vec());
@@ -231,6 +231,12 @@ pub fn mutations(g: &mut Gen, bs: &[u8], thorough: bool) -> Vec<Vec<u8>> {
         }
         out.push(bs[..n - 1].to_vec());
         out.push(Vec::new());
+        // cut points around the sizes at which decoders change strategy
+        for c in [255usize, 256, 260, 1024, 1028, 4095, 4096, 4097, 4099, 4100, 4101, 4104, 8192, 8196, 8200, 65536, 65540] {
+            if c < n {
+                out.push(bs[..c].to_vec());
+            }
+        }
     }
     // tails
     for t in [&[0u8][..], &[1u8, 2u8][..]] {
@@ -239,7 +245,7 @@ pub fn mutations(g: &mut Gen, bs: &[u8], thorough: bool) -> Vec<Vec<u8>> {
         out.push(x);
     }
     // single byte set to {2, 255, 0, 1, 128}
-    let max_pos = if thorough { 48 } else { 10 };
+    let max_pos = if n > 2048 { 2 } else if thorough { 48 } else { 10 };
     let positions: Vec<usize> = if n <= max_pos {
         (0..n).collect()
     } else {
@@ -333,11 +339,16 @@ fn malformed_one<T: Full>(case_bytes: &[u8], out: &mut Sink, index_coll: bool) {
 pub fn c04<T: Full>(g: &mut Gen, b: &Budget, out: &mut Sink) {
     let index_coll = T::ty().contains("index");
     let nvals = (b.values / 3).max(2);
-    for _ in 0..nvals {
+    let bigs: &[usize] = if b.thorough { &[257, 4096, 4097, 8193] } else { &[4097] };
+    for i in 0..nvals + bigs.len() {
+        if i >= nvals {
+            crate::gen::force_big(Some(bigs[i - nvals]));
+        }
         let v = T::gen(g, 0);
+        crate::gen::force_big(None);
         let (_, bs) = enc_obs(&v);
         let Some(bs) = bs else { continue };
-        if bs.len() > 4096 {
+        if bs.len() > (if i >= nvals { 40_000 } else { 400_000 }) {
             continue;
         }
         for m in mutations(g, &bs, b.thorough) {
@@ -514,6 +525,46 @@ pub fn c14<T: Full>(g: &mut Gen, b: &Budget, out: &mut Sink) {
         let res = guarded(|| T::deserialize_reader(&mut r));
         out.oracle("C14", matches!(res, Ok(Err(_))) && r.calls == 0, &case,
                    &format!("{} read calls ({} bytes) before the refusal", r.calls, r.pulled));
+    }
+}
+
+/// byte sequences beyond the 1 MiB initial allocation of the bulk read, followed by more data:
+/// the decoder must stop exactly at the end of the value
+pub fn large_bytes(g: &mut Gen, thorough: bool, out: &mut Sink) {
+    let sizes: Vec<usize> = if thorough {
+        vec![(1 << 20) - 1, 1 << 20, (1 << 20) + 1, 3 << 19, (1 << 21) + 5, 3 << 20]
+    } else {
+        vec![(1 << 20) + 1, 3 << 19]
+    };
+    for n in sizes {
+        let payload: Vec<u8> = (0..n).map(|i| b'a' + ((i * 7 + n) % 26) as u8).collect();
+        let text = String::from_utf8(payload).unwrap();
+        let (_, bs) = enc_obs(&text);
+        let Some(bs) = bs else { continue };
+        let tail_len = 1 + g.below(5) as usize;
+        let mut x = bs.clone();
+        x.extend(g.bytes(tail_len));
+        let case = format!("dec {} (str string) {}", MODE, hex(&x));
+        let o = match conv(guarded(|| {
+            let mut s = &x[..];
+            String::deserialize(&mut s).map(|v| (v, s.len()))
+        })) {
+            Ok(Ok((v, rest))) => format!("ok {} rest={}", canon_of(&v), rest),
+            Ok(Err(e)) => e,
+            Err(p) => format!("panic {}", p.replace(' ', "_")),
+        };
+        out.case(&case, &o);
+        out.oracle("C05", o.ends_with(&format!("rest={}", tail_len)) && o.starts_with("ok "), &case,
+                   &format!("a {} byte string followed by {} bytes: {}", n, tail_len, &o[..o.len().min(60)]));
+        // the same value inside a tuple: what follows it must still decode
+        let pair = (text.clone(), 0xA1B2C3D4u32, vec![1u8, 2, 3]);
+        let (_, pb) = enc_obs(&pair);
+        if let Some(pb) = pb {
+            let (o1, _) = fs_obs::<(String, u32, Vec<u8>)>(&pb);
+            let case = format!("fs {} (tuple (str string) u32 (seq vec u8)) {}", MODE, hex(&pb));
+            out.case(&case, &o1);
+            out.oracle("C01", o1 == format!("ok {}", canon_of(&pair)), &case, &o1[..o1.len().min(80)]);
+        }
     }
 }
 
